@@ -121,8 +121,11 @@ structure MSt where
   conn : Conn
   books0 : Books
   outs : List Out
+  /-- the consumer's local books kept across a `reconnect` (`OrderBookL2Manager` keeps its books; the new
+  connection's snapshots are applied to them) -/
+  persist : Option Books := none
 
-def MSt.empty : MSt := ⟨.spot, 0, [], false, ⟨[]⟩, [], ⟨⟨[]⟩, [], true⟩, [], []⟩
+def MSt.empty : MSt := ⟨.spot, 0, [], false, ⟨[]⟩, [], ⟨⟨[]⟩, [], true⟩, [], [], none⟩
 
 def model : Drv MSt where
   init := MSt.empty
@@ -136,6 +139,9 @@ def model : Drv MSt where
       match k.toNat?, parseChanges? cs with
       | some _, some _ => (s, [])
       | _, _ => (s, ["bad-op"])
+    | ["reconnect"] =>
+      -- new connection, same consumer: its books are what the previous connection delivered
+      ({ s with initial := [], persist := if s.started then some s.conn.books else s.persist }, [])
     | "snap" :: body =>
       match parseSnap? body with
       | some (k, b) => ({ s with initial := s.initial ++ [(k, Event.snapshot b)] }, [])
@@ -150,7 +156,7 @@ def model : Drv MSt where
       | .error .initialSnapshotInvalid => (s, ["start invalid"])
       | .ok t =>
         -- the initial snapshots are the first items of the stream: the consumer applies them
-        let books0 : Books := (List.range s.n).map fun k => (k, OrderBook.default)
+        let books0 : Books := s.persist.getD ((List.range s.n).map fun k => (k, OrderBook.default))
         let books0 := s.initial.foldl (fun bs (k, ev) => managerStep bs (.item k ev)) books0
         let seqs := t.instrumentMap.map fun (sub, im) => (sub, im.sequencer)
         ({ s with started := true, tr := t, seqs := seqs, conn := ⟨t, books0, true⟩, books0 := books0, outs := [] },
@@ -231,6 +237,11 @@ def spec : Drv SSt where
       match parseSnap? body with
       | some _ => (s, [])
       | none => (s, ["bad-op"])
+    | ["reconnect"] =>
+      -- re-initialisation: a fresh connection against the same venues; what the property says about a
+      -- connection holds for it from its own snapshot on, whatever the previous connection left behind
+      ({ s with started := false, told := false,
+                insts := s.insts.map fun i => { i with snapshot := none, constrained := false, inst := ⟨0, 0⟩ } }, [])
     | ["start"] =>
       -- the property speaks about connections that came up; whether `init` succeeds is not its concern
       if s.insts.all fun i => i.snapshot.isSome && i.constrained then
